@@ -703,6 +703,100 @@ def simulate_generator(chk: Check, ctx: FuncCtx, loop, base=None, fields=None, c
     return out
 
 
+def simulate_assembly(chk: Check, ctx: FuncCtx, loop, base=None, fields=None, call_models=None, own_handle=None, parent=None, max_rounds=64):
+    """How a read loop assembles its result for one model input, by evaluating the loop round by round: the pieces handed to
+    `<acc>.append(piece)` (placed one after the other) or stored with `<buf>[a:b] = piece` (placed at a), each classified as
+    zeros / own-file read at the position of the seek that precedes it / parent read.
+    -> ([(output offset, length, 'zeros' | 'file' | 'parent', source offset | None)], total length | None) or None (not decidable)"""
+    R = chk.R
+    carried = loop_carried(chk, ctx, loop)
+    rounds = simulate_loop(chk, ctx, loop, carried, [{}] * max_rounds, fields=fields, base=base, call_models=call_models)
+    if not rounds or rounds[-1][2][0] != "left":
+        return None
+    segs = []
+    pos = 0
+    last_seek = {}
+    total = None
+    try:
+        # a pre-sized zero buffer: bytearray(n)
+        for n in _own_nodes(ctx.func):
+            if isinstance(n, ast.Assign) and isinstance(n.value, ast.Call) and isinstance(n.value.func, ast.Name) and n.value.func.id in ("bytearray", "bytes") \
+                    and len(n.value.args) == 1 and not any(n is x for x in ast.walk(loop)):
+                v0 = S.Valuation(1, override=base, fields=fields)
+                v0.call_models = call_models
+                tv = S.ev(R.expr(ctx, n.value.args[0], ctx.cfg.node_of.get(n)), v0)
+                if isinstance(tv, int):
+                    total = tv
+        for r in rounds:
+            if r[2][0] in ("fork", "limit"):
+                return None
+            for node in r[1]:
+                a = node.ast
+                if node.kind != "stmt" or not isinstance(a, ast.AST):
+                    continue
+                for c in ast.walk(a):
+                    if isinstance(c, ast.Call) and isinstance(c.func, ast.Attribute) and c.func.attr == "seek" and c.args:
+                        h = rx(chk, ctx, c.func.value, node)
+                        last_seek[h] = S.ev(rx(chk, ctx, c.args[0], node), r.val)
+                piece = where = None
+                if isinstance(a, ast.Expr) and isinstance(a.value, ast.Call) and isinstance(a.value.func, ast.Attribute) and a.value.func.attr == "append" and len(a.value.args) == 1:
+                    piece = a.value.args[0]
+                elif isinstance(a, ast.Assign) and len(a.targets) == 1 and isinstance(a.targets[0], ast.Subscript) and isinstance(a.targets[0].slice, ast.Slice):
+                    sl = a.targets[0].slice
+                    if sl.lower is None or sl.step is not None:
+                        return None
+                    where = S.ev(rx(chk, ctx, sl.lower, node), r.val)
+                    piece = a.value
+                if piece is None:
+                    continue
+                t = rx(chk, ctx, piece, node)
+                # a conditional piece: the alternative whose conditions hold
+                chosen = None
+                for extra, alt in split_alternatives(t):
+                    if eval_conds(list(extra), r.val):
+                        chosen = alt
+                        break
+                if chosen is None:
+                    return None
+                eff = classify_effect(chosen, own_handle, parent)
+                if eff[0] == "PADDED":
+                    eff = eff[1]
+                at = pos if where is None else where
+                if eff[0] == "ZEROS":
+                    ln = S.ev(eff[1], r.val)
+                    segs.append((at, ln, "zeros", None))
+                elif eff[0] == "FILE":
+                    ln = S.ev(eff[2], r.val) if eff[2] is not None else None
+                    src = last_seek.get(eff[1])
+                    if ln is None or src is None:
+                        return None
+                    segs.append((at, ln, "file", src))
+                    last_seek[eff[1]] = src + ln
+                elif eff[0] == "PARENT":
+                    src = None
+                    if eff[1] == ".read":
+                        ln = S.ev(eff[2][0], r.val) if eff[2] else None
+                        for h, v in last_seek.items():
+                            if parent is not None and same_handle(h, parent):
+                                src = v
+                    elif eff[1] == "._read" and len(eff[2]) == 2:
+                        src, ln = S.ev(eff[2][0], r.val), S.ev(eff[2][1], r.val)  # parent._read(offset, length)
+                    else:
+                        return None
+                    if ln is None:
+                        return None
+                    segs.append((at, ln, "parent", src))
+                else:
+                    return None
+                if not isinstance(ln, int) or isinstance(ln, bool):
+                    return None
+                if where is None:
+                    pos += ln
+    except S.EvalError:
+        return None
+    return segs, total
+
+
 def carried_with_entry(chk: Check, carried, entry_term):
     """The loop-carried variable whose value on loop entry equals `entry_term`."""
     for name, info in carried.items():
